@@ -10,7 +10,7 @@ token (`eofPos`; the lexer always reports `Start = End` for it).  "Current token
 token when `toks` is empty; advancing over EOF stays at EOF (`advance` re-lexes at `Token.End`), which is what
 the code does in `skip(EOF)` and in the unguarded `advance` of `parseType`.
 
-Function for function after parser.go at /repo HEAD (75de65f):
+Function for function after parser.go at /repo HEAD (8478203):
 `cur`/`advance`/`peek`/`skip`/`expect`/`expectKeyword`/`lookahead`/`loc`/`unexpected` (parser.go:1503-1566),
 `reverse` with its `zinteger` flag (:1574-1599; "Unexpected empty" is reported at the closing token),
 `parseName`, `parseDocument` … `parseDirectiveLocations`.  Recursion: `parseValueLiteral`, `parseType` and
@@ -22,15 +22,19 @@ Bug-faithful points (known finding D-03b, class `typeRefMalformed`): `parseType`
 leading `]` stand for a list and closes `[ T` with ANY token (`fallthrough` + unguarded `advance`).  The model
 does the same and raises the flag `bad` at exactly these three sites; a nil type is the sentinel `nilType`
 (`TypeRef.named "" ⟨0,0⟩`, not producible from a NAME token), `VarDef.type = none` for a nil variable type.
-Lexer errors are not modelled here (the token list is complete); see notes/agents/C03-parser.md. -/
+Lexer errors: the productions work on a complete token list; the interleaving of the parser's own rejections with the
+lexical error of a malformed lexeme AFTER the tokens (the parser lexes one token ahead) is the layer `parseLazy` at the
+end of this file, which uses the count `left` of unconsumed tokens every syntax error records. -/
 namespace GqlModel.Parser
 open GqlModel
 
 /-- outcome of a failed parse: the byte offset `gqlerrors.NewSyntaxError` is given, or fuel exhaustion -/
 inductive PErr where
   /-- `bad`: the flag of the state in which the error was raised (a malformed type reference had been let through
-  before the parse failed; used only to classify error-offset differences should D-03b ever be repaired) -/
-  | syntax (pos : Nat) (bad : Bool)
+  before the parse failed; used only to classify error-offset differences should D-03b ever be repaired);
+  `left`: how many tokens (before `<EOF>`) had not been consumed when the error was raised — `0` means the parser
+  had already advanced past the last of them (used by the lazy-lexing layer `parseLazy`) -/
+  | syntax (pos : Nat) (bad : Bool) (left : Nat)
   | fuel
   | noEOF
 deriving DecidableEq, Repr
@@ -76,7 +80,7 @@ instance : Monad P where
 
 def cur : P Token := fun σ => .ok (σ.cur, σ)
 def advance : P Unit := fun σ => .ok ((), σ.adv)
-def fail {α} (pos : Nat) : P α := fun σ => .error (.syntax pos σ.bad)
+def fail {α} (pos : Nat) : P α := fun σ => .error (.syntax pos σ.bad σ.toks.length)
 def outOfFuel {α} : P α := fun _ => .error .fuel
 def flagBad : P Unit := fun σ => .ok ((), { σ with bad := true })
 /-- `loc(parser, start)` -/
@@ -92,13 +96,13 @@ def skip (k : TokenKind) : P Bool := fun σ =>
   if σ.cur.kind = k then .ok (true, σ.adv) else .ok (false, σ)
 
 def expect (k : TokenKind) : P Token := fun σ =>
-  if σ.cur.kind = k then .ok (σ.cur, σ.adv) else .error (.syntax σ.cur.start σ.bad)
+  if σ.cur.kind = k then .ok (σ.cur, σ.adv) else .error (.syntax σ.cur.start σ.bad σ.toks.length)
 
 def expectKeyword (s : String) : P Token := fun σ =>
-  if σ.cur.kind = .name ∧ σ.cur.value = s then .ok (σ.cur, σ.adv) else .error (.syntax σ.cur.start σ.bad)
+  if σ.cur.kind = .name ∧ σ.cur.value = s then .ok (σ.cur, σ.adv) else .error (.syntax σ.cur.start σ.bad σ.toks.length)
 
 /-- `unexpected(parser, lexer.Token{})` -/
-def unexpected {α} : P α := fun σ => .error (.syntax σ.cur.start σ.bad)
+def unexpected {α} : P α := fun σ => .error (.syntax σ.cur.start σ.bad σ.toks.length)
 
 /-- the loop of `reverse` (and of `parseObject`): items until `close` is skipped -/
 def many {α} (close : TokenKind) (item : P α) : Nat → P (List α)
@@ -622,6 +626,34 @@ def parseValueTokens (all : List Token) : Except PErr Value :=
     | .ok (v, _) => .ok v
     | .error e => .error e
   | none => .error .noEOF
+
+/-! ## Lazy lexing: a malformed lexeme after the tokens
+
+`parser.Parse` lexes one token ahead: `advance` asks the lexer for the NEXT token and returns its error at once.  So
+when the text has a malformed lexeme after the tokens `toks` (all of which lex), the parser fails with the lexical
+error as soon as it advances past the last of `toks` (or looks ahead past it, `lookahead` after a description) — but a
+rejection it raises while the current token is still one of `toks`, BEFORE advancing, wins.  `parseLazy` is that
+behaviour in terms of M: run M on `toks` with an EOF offset no token starts at; the parser's own error stands iff it
+was raised with at least one token unconsumed (`left > 0`) and does not blame the (non-existent) token after `toks`. -/
+
+/-- an offset that is not the start of any token of `toks` -/
+def freshEOF (toks : List Token) : Nat := toks.foldl (fun m t => max m (t.start + 1)) 0
+
+inductive LazyOut where
+  /-- the lexical error of the malformed lexeme is what `parser.Parse` returns -/
+  | lexError
+  /-- the parser's own syntax error at this offset is returned; the malformed lexeme is never looked at -/
+  | syntax (pos : Nat)
+  | fuel
+deriving DecidableEq, Repr
+
+/-- `parser.Parse` on a text whose tokens `toks` are followed by a malformed lexeme -/
+def parseLazy (toks : List Token) : LazyOut :=
+  match parseDocument (initState toks (freshEOF toks)) with
+  | .ok _ => .lexError
+  | .error (.syntax pos _ left) => if 0 < left ∧ pos ≠ freshEOF toks then .syntax pos else .lexError
+  | .error .fuel => .fuel
+  | .error .noEOF => .lexError
 
 /-- the decidable known-finding predicate of D-03b, on the complete token list -/
 def typeRefMalformed (all : List Token) : Bool :=
